@@ -592,7 +592,38 @@ func (g *pg) boolE(d int) *ir.Expr {
 	if d <= 0 {
 		return g.boolLeaf()
 	}
-	switch rapid.IntRange(0, 16).Draw(rt, "boolprod") {
+	switch rapid.IntRange(0, 17).Draw(rt, "boolprod") {
+	case 17:
+		// `(if c then A::"x" else B::"y").hasTag("k") && <ill-typed>` where only one of A, B declares tags: the tag test can
+		// be true (when the union turns out to be the tagged member), so the right operand has to be checked. A validator
+		// that types hasTag False as soon as *one* member of the union has no tags skips it and accepts.
+		if g.slip("tag-guard-on-entity-union-before-ill-typed") {
+			var tagged, untagged []string
+			for _, n := range g.entityNames() {
+				if e := g.rs.Entity(n); e != nil && e.Tags != nil {
+					tagged = append(tagged, n)
+				} else if e != nil {
+					untagged = append(untagged, n)
+				}
+			}
+			if len(tagged) > 0 && len(untagged) > 0 {
+				a, b := gen.Pick(rt, tagged, "tagunion-a"), gen.Pick(rt, untagged, "tagunion-b")
+				la := ir.Lit(ir.Ent(a, gen.Pick(rt, g.ids(a), "tagunion-ida")))
+				lb := ir.Lit(ir.Ent(b, gen.Pick(rt, g.ids(b), "tagunion-idb")))
+				union := ir.If(g.boolLeaf(), la, lb)
+				if gen.Chance(rt, 50, "tagunion-swap") {
+					union = ir.If(g.boolLeaf(), lb, la)
+				}
+				guard := ir.Bin(ir.OpHasTag, union, ir.Lit(ir.Str(gen.Pick(rt, sch.RTagKeys, "tagunion-k"))))
+				bad := gen.Pick(rt, []*ir.Expr{
+					ir.Bin(ir.OpLt, ir.Lit(ir.Long(1)), ir.Lit(ir.Str("a"))),
+					ir.Bin(ir.OpEq, ir.Bin(ir.OpAdd, ir.Lit(ir.Long(1)), ir.Lit(ir.Bool(true))), ir.Lit(ir.Long(2))),
+					ir.Un(ir.OpNot, ir.Lit(ir.Long(1))),
+				}, "tagunion-bad")
+				return ir.Bin(ir.OpAnd, guard, bad)
+			}
+		}
+		return g.guarded(d)
 	case 16:
 		// a collection literal whose elements have no common type, one of them a union of entity types and another a
 		// member of that union (the error report has to order and name all of them), in every element order
